@@ -111,7 +111,7 @@ def bare_name_region(dump):
     """K-BARE-NAME: identifiers the printers emit without quoting although they are not plain words"""
     bare = names_in(dump, ["ASTAlisaExpression{name", "view_name", "ASTWithTable{name", "ASTUpdateSetColumn{column_name", "function_name",
                            "ASTWildcardExpression{table_name", "from_column_name", "to_column_name", "ASTAlterDropColumnExpression{column_name",
-                           "constraint_name", "master_table_name", "schema_name"])
+                           "constraint_name", "master_table_name", "ASTFunctionNameExpression{schema_name"])
     for m in re.finditer(r"ASTMultiAlisaExpression\{names=\(([^)]*)\)", dump):
         for part in m.group(1).split(","):
             if part.startswith("s:"):
